@@ -533,6 +533,12 @@ class Dispatcher(actor.RallyActor):
     def receiveMsg_BenchmarkFailure(self, msg, sender):
         self.send(self.start_sender, msg)
 
+    def receiveMsg_ChildActorExited(self, msg, sender):
+        # The node mechanics are our children (e.g. they are gone if their remote Rally daemon has been shut down). Only the
+        # mechanic knows whether this is expected (the engine is stopping) or a failure (it is still starting or running).
+        if self.start_sender:
+            self.send(self.start_sender, msg)
+
     def receiveMsg_PoisonMessage(self, msg, sender):
         self.send(self.start_sender, actor.BenchmarkFailure(msg.details))
 
